@@ -43,7 +43,7 @@ func c01GoContext(i int) pongo2.Context {
 	base := pongo2.Context{
 		"s1": "alpha", "s2": "be ta", "e": "", "n1": 3, "n2": -2, "z": 0, "f1": 2.5, "b1": true, "b0": false, "nil1": nil,
 		"lst": []string{"x", "y"}, "nums": []int{3, 1, 2}, "el": []int{}, "m": map[string]string{"k": "v"}, "mm": map[string]any{"a": 1, "b": "w"},
-		"st": u, "nest": [][]int{{1, 2}, {3}},
+		"st": u, "nest": [][]int{{1, 2}, {3}}, "fh": 0.5, "ft": float32(-0.25), "tiny": 1e-9,
 	}
 	switch i % 8 {
 	case 0:
@@ -159,6 +159,19 @@ func runC01(r *run) {
 				cases = append(cases, caseT{"gototal", append(w.args(src, nil), xf, xt, fmt.Sprint(i))})
 			}
 		}
+		// (d) every arithmetic / comparison operator on a grid of awkward operands (zero and
+		// fractional divisors, limits of int64, non-numbers), as literals and as context values
+		operands := []string{"0", "1", "-1", "2", "7", "0.0", "0.5", "-0.25", "0.000000001", "1.5", "9223372036854775807", "-9223372036854775807", "99999999999999999999",
+			"\"a\"", "\"\"", "z", "n1", "n2", "f1", "fh", "ft", "tiny", "s1", "lst", "nil1", "b1", "st"}
+		for _, op := range []string{"+", "-", "*", "/", "%", "^", "==", "<", "in"} {
+			for ai, a := range operands {
+				for bi, b := range operands {
+					src := "{{ " + a + " " + op + " " + b + " }}"
+					cases = append(cases, caseT{"render", append(w.args(src, ctx0), xf, xt)})
+					cases = append(cases, caseT{"gototal", append(w.args(src, nil), xf, xt, fmt.Sprint(ai+bi))})
+				}
+			}
+		}
 		// (c) the recorded finding: cyclic references between templates
 		for _, fs := range []map[string]string{
 			{"a.tpl": "{% include \"a.tpl\" %}"},
@@ -176,6 +189,11 @@ func runC01(r *run) {
 		}
 		res := runIsolated("C01", cases, 2*time.Second, filepath.Join(r.outdir, "iso"))
 		for i, c := range cases {
+			if c.op == "cyclic" && res[i].obs == "timeout" {
+				// unbounded recursion either overflows the (capped) stack or hits the case deadline
+				// first, depending on the machine: the same observation "did not return"
+				res[i].obs = "crash"
+			}
 			id := r.emit(c.op, c.args, res[i].obs)
 			if len(c.args[0]) > 8 {
 				r.nontrivial(c.args[0])
